@@ -113,7 +113,7 @@ theorem filterMN_map {n : ℕ} (My Mx : ℕ) (kFy kFx kBy kBx : ℤ → C) (sc :
 
 end map
 
-/-! ## the exact Fresnel transfer function (`psumMeanTurns`) and locality of the pipeline -/
+/-! ## the exact Fresnel transfer function (`meanTurns psumScalar`) and locality of the pipeline -/
 
 theorem ev_foldr_turns (l : List ℚ) :
     PSum.ev ((l.map PSum.turns).foldr (· + ·) 0)
@@ -129,8 +129,9 @@ theorem ev_foldr_turns (l : List ℚ) :
     ring
 
 theorem ev_psumMeanTurns (l : List ℚ) :
-    PSum.ev (psumMeanTurns l) = listMean (l.map fun t => cexp (((2 * Real.pi * ((t : ℚ) : ℝ) : ℝ) : ℂ) * I)) := by
-  unfold psumMeanTurns listMean
+    PSum.ev (meanTurns psumScalar l) = listMean (l.map fun t => cexp (((2 * Real.pi * ((t : ℚ) : ℝ) : ℝ) : ℂ) * I)) := by
+  unfold meanTurns listMean
+  show PSum.ev (PSum.ofRat _ * (l.map PSum.turns).foldr (· + ·) 0) = _
   rw [PSum.ev_mul, PSum.ev_ofRat, ev_foldr_turns, List.length_map]
   push_cast
   ring
